@@ -321,7 +321,7 @@ def drive(mod, tier: str, seed: int) -> int:
         s.setdefault("tier", tier)
         s.setdefault("seed", seed)
         s.setdefault("shard", i)
-    timeout = getattr(mod, "SHARD_TIMEOUT", {"quick": 240, "thorough": 1500})[tier]
+    timeout = getattr(mod, "SHARD_TIMEOUT", {"quick": 150, "thorough": 1500})[tier]
     par = getattr(mod, "PAR", NCPU)
     results = run_shards(
         mod.__name__.split(".")[-1], specs, timeout, par,
